@@ -49,6 +49,126 @@ def check(run, prog, tier):
     rule_H(run, prog)
     run.rule("C10-F", "what the aggregate calls on its molecules exists in Molecule (modes are declared through these calls)", minimum=25)
     rule_F(run, prog)
+    run.rule("C10-I", "the look-up table of Franck-Condon matrices keeps shifts and matrices in step: every operation that changes "
+                      "the order or length of one list is mirrored, with the same position, on the other", minimum=2)
+    rule_I(run, prog)
+
+
+_LIST_MUT = ("append", "pop", "insert", "remove", "clear", "extend", "sort", "reverse")
+
+
+def list_ops(stmts, attrs):
+    """Order-changing operations on self.<attr> (attr in attrs) directly in the statement list `stmts`, in source order:
+    [(attr, (op, position text))]; nested blocks are returned as ('block', [...]) entries so that lockstep is demanded
+    per block (both lists changed under the same condition)."""
+    out = []
+    for st in stmts:
+        found = []
+        if isinstance(st, ast.Expr) and isinstance(st.value, ast.Call) and isinstance(st.value.func, ast.Attribute) \
+                and st.value.func.attr in _LIST_MUT and isinstance(st.value.func.value, ast.Attribute) \
+                and norm(st.value.func.value.value) == "self" and st.value.func.value.attr in attrs:
+            c = st.value
+            op = c.func.attr
+            pos = ""
+            if op == "pop":
+                pos = norm(c.args[0]) if c.args else "-1"
+            elif op == "insert":
+                pos = norm(c.args[0])
+            found.append((c.func.value.attr, (op, pos), st))
+        elif isinstance(st, ast.Delete):
+            for t_ in st.targets:
+                if isinstance(t_, ast.Subscript) and isinstance(t_.value, ast.Attribute) and norm(t_.value.value) == "self" \
+                        and t_.value.attr in attrs:
+                    found.append((t_.value.attr, ("del", norm(t_.slice)), st))
+        elif isinstance(st, (ast.Assign, ast.AugAssign)):
+            tg = st.targets if isinstance(st, ast.Assign) else [st.target]
+            for t_ in tg:
+                b_ = t_
+                sub = None
+                if isinstance(b_, ast.Subscript):
+                    sub, b_ = b_, b_.value
+                if isinstance(b_, ast.Attribute) and norm(b_.value) == "self" and b_.attr in attrs:
+                    if sub is None:
+                        found.append((b_.attr, ("rebind", norm(st.value) if isinstance(st.value, (ast.List, ast.Constant)) else "?"), st))
+                    elif isinstance(sub.slice, ast.Slice):
+                        found.append((b_.attr, ("slice", norm(sub.slice)), st))
+                    else:
+                        found.append((b_.attr, ("setitem", norm(sub.slice)), st))
+        # a pop/insert whose value is used (x = self.L.pop(0)) is an operation as well
+        if not found:
+            for c in ast.walk(st) if not isinstance(st, (ast.If, ast.For, ast.While, ast.With, ast.Try)) else []:
+                if isinstance(c, ast.Call) and isinstance(c.func, ast.Attribute) and c.func.attr in _LIST_MUT \
+                        and isinstance(c.func.value, ast.Attribute) and norm(c.func.value.value) == "self" and c.func.value.attr in attrs:
+                    pos = (norm(c.args[0]) if c.args else "-1") if c.func.attr in ("pop", "insert") else ""
+                    found.append((c.func.value.attr, (c.func.attr, pos), st))
+        out.extend(found)
+        for fld in ("body", "orelse", "finalbody", "handlers"):
+            sub = getattr(st, fld, None)
+            if isinstance(sub, list) and sub and not isinstance(st, (ast.FunctionDef, ast.ClassDef)):
+                blk = []
+                for h in sub:
+                    blk.extend(h.body if isinstance(h, ast.ExceptHandler) else [h])
+                out.append(("block", list_ops(blk, attrs), st))
+    return out
+
+
+def lockstep_mismatch(ops, attrs):
+    """First block in which the per-list sequences of operations differ: (statement, {attr: sequence})."""
+    seqs = {a: [o for (a_, o, _s) in [x for x in ops if x[0] != "block"] if a_ == a] for a in attrs}
+    vals = list(seqs.values())
+    if any(v != vals[0] for v in vals[1:]):
+        first = next(x[2] for x in ops if x[0] != "block")
+        return first, seqs
+    for x in ops:
+        if x[0] == "block":
+            r = lockstep_mismatch(x[1], attrs)
+            if r:
+                return r
+    return None
+
+
+def rule_I(run, prog):
+    """'Franck-Condon factors ... are the products of the overlaps': Aggregate.fc_factor takes the overlap matrix of a shift
+    from fcstorage, which keeps two lists - the shifts and, at the same positions, their matrices (index() searches the
+    first, get() reads the second).  The table is right only while the two lists are permuted, extended and shortened
+    together: per method and per block, the operations on the one list must be the operations on the other, with the same
+    positions.  An eviction that pops the oldest shift and the newest matrix, a sort of the shifts, a removal by value -
+    each leaves every later look-up returning the matrix of another shift."""
+    rid = "C10-I"
+    cls = prog.cls("quantarhei.qm.oscillators.ho.fcstorage")
+    ini = cls.methods["__init__"]
+    prog.consulted.add(ini.relpath)
+    attrs = [t_.attr for st in ini.node.body if isinstance(st, ast.Assign) and isinstance(st.value, ast.List) and not st.value.elts
+             for t_ in st.targets if isinstance(t_, ast.Attribute) and norm(t_.value) == "self"]
+    if len(attrs) != 2:
+        raise AnalysisError("fcstorage: two parallel lists expected, found %s" % attrs)
+    n = 0
+    for nme, f in cls.methods.items():
+        ops = list_ops(f.node.body, attrs)
+
+        def flat(o):
+            return [x for x in o if x[0] != "block"] + [y for x in o if x[0] == "block" for y in flat(x[1])]
+        if not flat(ops):
+            continue
+        n += 1
+        mm = lockstep_mismatch(ops, attrs)
+        run.obligation(rid, f.short, mm is None, key="lists-in-step",
+                       message="%s changes the parallel lists of the look-up table out of step: %s - after it, the matrix found for "
+                               "a shift is the matrix of another shift, and the Franck-Condon factors of the aggregate are those of "
+                               "other Huang-Rhys factors" % (f.short, "; ".join("self.%s: %s" % (a, ", ".join(
+                                   "%s(%s)" % o for o in q) or "nothing") for a, q in mm[1].items()) if mm else ""),
+                       loc=f.loc(mm[0]) if mm else f.loc(f.node), sample={"lists": attrs})
+    if n < 2:
+        raise AnalysisError("fcstorage: only %d methods change the lists (constructor and add confirmed)" % n)
+    # and nobody outside the class reaches into the lists
+    for f in prog.all_functions():
+        if f.qualname.startswith(cls.qualname + ".") or ".tests." in f.qualname:
+            continue
+        for x in walk_no_nested(f.node):
+            if isinstance(x, ast.Attribute) and x.attr in attrs and norm(x.value) != "self":
+                run.obligation(rid, f.short, False, key="lists-private:" + x.attr,
+                               message="%s reaches into the look-up table's list %s from outside the class" % (f.short, x.attr),
+                               loc=f.loc(x))
 
 
 def rule_A(run, prog):
